@@ -632,6 +632,17 @@ def check_metrics(ctx, cases, outs):
             ctx.violation('metrics', 'implementation worker failed', case=case, defect='worker_failure')
             continue
 
+        for key, second in (out.get('same_object') or {}).items():
+            first = out.get(key)
+            if first is None:
+                continue
+            same = ('ok' in first) == ('ok' in second) and ('ok' not in first or close(first['ok'], second['ok']))
+            if not same:
+                ctx.violation('tree_sampling_divergence' if 'tsd' in key else 'dasgupta_cost',
+                              '%s computed on a matrix object that earlier metric calls have used differs from the value on a fresh '
+                              'matrix' % key, case=case, expected=first, observed=second, defect='same_object_sequence', metric=key,
+                              family=kind)
+
         def q(v):
             return None if v[0] == 'Err' else Fraction(v[1][0][0], v[1][0][1])
         names = ['cost_uniform', 'cost_degree', 'ncost_uniform', 'ncost_degree', 'score_uniform', 'score_degree']
